@@ -12,7 +12,7 @@ use serde_json::{json, Value};
 
 pub fn random_meta(g: &AG, rng: &mut Rng) -> AG {
     let mut g = g.clone();
-    let prios = [5u32, 15, 20];
+    let prios = [5u32, 10, 15, 20];
     let assocs = [Assoc::Left, Assoc::Right, Assoc::Reduce, Assoc::Shift];
     for r in &mut g.rules {
         if rng.chance(0.15) {
